@@ -4,7 +4,8 @@ Inductive ilabel :=
 | IPreload (now : Z) (answers : list pyrec)             (* a response before the lookup starts *)
 | IStart (name : text) (now timeout rnd : Z) (forced : option bool)
 | IResp (now : Z) (answers : list pyrec)                (* a response while the lookup is running (or after) *)
-| ITurn (now rnd : Z).                                  (* the coroutine resumes: one turn of the loop *)
+| ITurn (now rnd : Z)                                   (* the coroutine resumes: one turn of the loop *)
+| IPurge (now : Z).                                     (* the periodic 10 s cache cleanup *)
 
 Definition vout (o : rq_out) : val :=
   match o with
@@ -35,6 +36,9 @@ Fixpoint irun (s : istate) (ls : list ilabel) : list val :=
                 | None => None
                 end in
       irun {| is_cache := c'; is_hist := is_hist s; is_req := r' |} rest
+  | IPurge now :: rest =>
+      let c' := match pg_final (purge now (is_cache s)) with Ok c => c | Raise _ => is_cache s end in
+      irun {| is_cache := c'; is_hist := is_hist s; is_req := is_req s |} rest
   | ITurn now rnd :: rest =>
       match is_req s with
       | Some r =>
